@@ -339,6 +339,16 @@ pub fn c13_ops() -> Vec<Op> {
             v.push(verdict(format!("truth / budget constructors on [{a:?}, {b:?}]"), move || c13::check_truth(&[a, b]).and_then(|_| c13::check_budget(&[a, b]))));
         }
     }
+    // single root calls: the n-th root of a valid number is valid
+    for &x in &[0.0f64, -0.0, 5e-324, 2.2250738585072014e-308, 1e-300, 0.5, 0.9999999999999999, 1.0] {
+        for n in [0usize, 1, 2, 3, 4, 64] {
+            v.push(verdict(format!("root({x:?}, {n}) is valid"), move || {
+                use narsese::api::EvidentNumber;
+                let r = x.root(n);
+                if c13::valid(r) { Ok(()) } else { Err(format!("root({x:?}, {n}) = {r:?} is not a valid evidence number")) }
+            }));
+        }
+    }
     v.push(verdict("constructors on four valid components", || c13::check_truth(&[0.5, 0.5, 0.5, 0.5]).and_then(|_| c13::check_budget(&[0.5, 0.5, 0.5, 0.5])).and_then(|_| c13::check_supply(&[0.5, 0.25, 0.75]))));
     with_context(v)
 }
